@@ -48,7 +48,7 @@ def body_of(n, salt):
     return bytes(((i * 11 + salt) & 0xFF) for i in range(n))
 
 
-def run_one(devs, budgets, blocks=1, direction="h2e", corrupt=None, all_bytes=False, chunk_menu=True, second=True, traced=True):
+def run_one(devs, budgets, blocks=1, direction="h2e", corrupt=None, all_bytes=False, chunk_menu=True, second=True, traced=True, paced=False):
     box = {}
 
     def driver(s):
@@ -63,6 +63,9 @@ def run_one(devs, budgets, blocks=1, direction="h2e", corrupt=None, all_bytes=Fa
         eq.enable()
         link = env.Link(hs.loop, es.loop, chunk_menu=chunk_menu)
         link.all_bytes = all_bytes
+        if paced:
+            # the chunks of one write arrive one character time apart (about 1 ms at 9600 baud): the receiver sees every prefix
+            hs.loop.pace = es.loop.pace = 0.001
         link.connect()
         s.settle()
         first_dir = "a>b" if direction == "h2e" else "b>a"
@@ -117,7 +120,7 @@ def run_one(devs, budgets, blocks=1, direction="h2e", corrupt=None, all_bytes=Fa
 
     sched = vrt.run(driver, devs, budgets, max_steps=400000, max_time=3600.0, line_points=traced)
     res = {"trace": sched.trace, "v": []}
-    case = {"blocks": blocks, "direction": direction, "corrupt": corrupt, "all_bytes": all_bytes, "chunk_menu": chunk_menu, "second": second}
+    case = {"blocks": blocks, "direction": direction, "corrupt": corrupt, "all_bytes": all_bytes, "chunk_menu": chunk_menu, "second": second, "paced": paced}
     if sched.harness_failure or sched.driver_exception:
         res["harness"] = (sched.harness_failure or sched.driver_exception)[-1200:]
         res["obs"] = None
@@ -222,6 +225,7 @@ def run(ctx):
         "at a time (the statement's assumption): the driver starts the second sender after the first returned",
         "a corrupted LENGTH byte is not in the enumeration of the main oracle: the statement covers blocks that arrive with a wrong checksum; "
         "with a wrong length the receiver waits for bytes that never come (the library implements no T1/T2) - see known findings",
+        "paced cases: the chunks of a write arrive 1 ms of virtual time apart, so the receiver runs between any two of them",
         "line granularity interleavings of sender thread, both receiver threads and dispatchers with <= K delays and <= C chunk deviations",
     ]
     from checks import hsms_harness as hh  # noqa: PLC0415
@@ -244,6 +248,14 @@ def run(ctx):
                 ctx.exhaustive = False
             if ctx.out_of_time():
                 break
+    # the same with paced arrival (each chunk arrives while the receiver is already waiting): every <= 2 cut deviations, default schedule
+    for blocks in (1, 2):
+        for direction in ("h2e", "e2h"):
+            cfg = {"blocks": blocks, "direction": direction, "second": blocks == 1, "paced": True, "traced": False}
+            st = explore.explore(ctx, run_one, {"sched": 0, "cut": 2}, f"c17-paced-{blocks}-{direction}", opts=cfg, chunk=8)
+            parts.append({"cfg": cfg, "executions": st["executions"], "outcomes": st["distinct_outcomes"], "levels_completed": st["levels_completed"]})
+            tot += st["executions"]
+            states += st["distinct_outcomes"]
     # known finding probe: corrupted length byte (kept apart from the main oracle)
     for label, mask in (("shorter", 0x01), ("longer", 0x80)):
         r = run_one({}, {}, blocks=1, corrupt=[0, 0, mask], second=False, traced=False)
@@ -259,6 +271,7 @@ def run(ctx):
         for blocks in (1, 2, 3):
             for direction in ("h2e", "e2h"):
                 yield {"blocks": blocks, "direction": direction, "all_bytes": True, "chunk_menu": False, "second": True}
+                yield {"blocks": blocks, "direction": direction, "all_bytes": True, "chunk_menu": False, "second": True, "paced": True}
 
     n = ctx.run_cases(check_case, cases(), "c17-corruption", chunk=8)
     ctx.setcov("states", states + n)
